@@ -48,6 +48,10 @@ func pickGrammar(r *rand.Rand, idx int, usable bool, cfg gen.RandCfg) *spec.Gram
 	if usable && idx%50 == 7 {
 		return gen.Big(r)
 	}
+	if usable && idx%40 == 11 {
+		// more than 64 symbols (in-process checks only: the drivers' input encoding holds 62 tokens)
+		return gen.ManyTokens(r)
+	}
 	if usable && idx%7 == 2 {
 		return gen.LongRules(r)
 	}
